@@ -19,7 +19,7 @@ the operand's width; for CMP/TEST it is congruent to d−s / d&s modulo 2^4 for 
 MUL/IMUL set CF = OF = 1 exactly when the product does not fit — the handler's own tests on the 2N-bit product term are
 evaluated for the products whose bits N−1..2N−1 are all zero, all one, and every single-bit deviation from either
 (1 248 product classes over 17 forms); `overflowing_mul` forms are judged on its overflow flag, width and signedness.
-The numeric value of CF/OF/AF of additions and subtractions stays declined (seeded change S01 shows the cost).""",
+The numeric value of CF/OF/AF of additions and subtractions stays declined (seeded change S01 shows the cost). **reads** (round 5) computes the rflags dependence per result bit through constant shifts, masks, casts and comparisons, so any spelling of a condition (`(f >> 7 ^ f >> 11) & 1`) depends on exactly the flags it tests.""",
 "C08": """*As built (round 2).* **le** is decided by bit provenance over byte tuples: the reader's value has byte i of the N/8
 bytes read at the caller's address in bits 8i..8i+7 and zeroes above; the writer hands the byte store N/8 bytes, byte i
 being bits 8i..8i+7 of the value — whatever conversions spell it (`to/from_{le,be}_bytes`, shifts and casts, padded
@@ -41,19 +41,19 @@ decided twice: over one generic area per ordering (sound and complete, 52 runs),
 (the colliding area alone, before and behind an unrelated or the resized area; 45 + 36 runs) walked in order by every
 iterator instance with the loops unrolled exactly, starting at every public function that reaches an area-adding
 function: no path adds an area / succeeds while a colliding area sits anywhere in the list (seeded change S50 stopped
-the resize scan at the resized area).""",
+the resize scan at the resized area). **search** (round 5): see C17.search; judged for the four allocator / stack APIs. The twin lists of **overlap** (a non-empty and an empty area sharing the requested start) found the defect repaired by f0880e3.""",
 "C12": """*As built (round 2).* **iterate**: the runner is interpreted per class of what the hook returned {Handled, Unhandled,
 Err} x {execution finished meanwhile or not}: Err ends the chain with the error, Handled or finished ends it with Ok,
 Unhandled goes on to the next hook. **guard** interprets private `&self` helpers inline (an extracted guard is the
-same guard).""",
+same guard). Round 5: the vector a registration pushes to is found by interpreting the public registration API with its private helpers inline; the running-guard is judged at the crate-visible entry points that reach a function mutating the hook table; awaiting a local `async fn` runs its body, so a runner or a hook phase moved into an async helper is the same code.""",
 "C20": """*As built.* **sources** accepts rand calls in closures of the two seeding functions and in the pipe() hook (found by
 the syscall number it selects); **reads** is conservative by design: any register read in `step` itself other than RIP
 is reported (seeded change S20 printed `used_registers()` into the error text); the same holds for the cone that builds
 error texts and traces (byte accessors, fetch, decoder front end, the error-hint builder, `trace`, `call_stack`,
-`resolve_symbol`): a call-graph who-may-call rule with the register argument resolved to a constant (seeded change S36).""",
+`resolve_symbol`): a call-graph who-may-call rule with the register argument resolved to a constant (seeded change S36). Round 5: the observable cone follows formatting arguments (outside `debug_log!`) to the crate's own `Display` / `Debug` / `LowerHex` impls of the types named in the argument, so hash-map iteration inside a `fmt` that an error text prints is reported (seeded change S57).""",
 "C03": """*As built.* `target` additionally requires every register, address and memory term the target is computed from to be
 an *entry-state* version (read before the handler's first write): CALL r/m64 that resolves its operand after the push
-is reported (seeded change S02).""",
+is reported (seeded change S02). **rcx** (round 5) is decided per representative value of RCX (zero; only the low / only the high half zero; single low, middle and top bits; all ones): the tests a path made on any view of RCX are evaluated, the consistent paths must take the branch exactly when the architectural counter (RCX or ECX) is zero.""",
 "C04": """*As built.* `value` requires the pushed value to be an entry-state read: a PUSH that reads its operand after RSP was
 changed is reported (PUSH RSP stores the old RSP; seeded change S11). `empty` compares affine forms (any spelling of
 `slot == stack_top`) and, round 4, requires the normal-finish signal to be raised only on paths where that comparison
@@ -70,7 +70,7 @@ class. A fitting class must have a success path, a non-fitting class none. 140 c
 "C07": """*As built (round 2).* `tables` checks the tables that exist; the high-byte table is optional because `bits` decides
 the aliasing of each of the 68 views x 8 accessors by bit provenance whatever the handler uses to tell AH..DH apart
 (HashSet lookup, `matches!`, a range over iced's encoding order: `RangeInclusive::contains` and derived comparisons on
-field-less enum constants are summarised by discriminant).""",
+field-less enum constants are summarised by discriminant). **bits** (round 5) judges the final value of the parent's slot on every success path, including paths that store nothing, modulo the bit equalities the path has established by comparing values: an elided write is accepted exactly when the path shows the register already holds the architectural result (seeded change S54 and its corrected form).""",
 "C11": """*As built.* Added `end`: `code_end_addr` = `code_start_addr + code.len()` in the constructor (affine), independent of
 the initial RIP (seeded change S05).""",
 "C13": """*As built (round 2).* The hook closure is interpreted for the 8 classes {first use, heap exists} x {p = 0,
@@ -85,7 +85,7 @@ class's minimum; write: contents[key] := B ++ G (G when missing), RAX = RDX. **k
 write only contents[write_ends[RDI]]; pipe() writes read_ends[R] = W, write_ends[W] = R, contents[R] = empty with R, W
 distinct fresh draws and hands [R, W] to the guest at RDI, RDI+8. Calls outside the model make the instance undecided
 and trip the floor (6 Handled paths decided). **atomic** (round 3): with failing guest memory accesses switched on,
-every path on which one fails returns that error and leaves every map entry at its entry value (seeded change S32).""",
+every path on which one fails returns that error and leaves every map entry at its entry value (seeded change S32). Round 5: a path that has established count = 0 (or an empty buffer) transfers nothing (no guest write or an empty one, RAX = 0, buffer unchanged); a Handled path that never looked RDI up in the buffers is a passthrough violation (seeded change S55).""",
 "C15": """*As built (round 2).* **load** compares the *image* of the area as a sequence expression: zero-filled base of a
 length derived from `p_memsz` only, plus overlays at offset 0 that normalise to `segment_data(segment)` (library fact:
 its length is `p_filesz`), or the file bytes alone when the path ties the rounded `p_memsz` to `p_filesz`; events are
@@ -104,7 +104,7 @@ dominating comparison puts it (or a sum containing it) below something bounded; 
 overflow guards of `checked_add` compare against constants near 2^64 and therefore do not count).""",
 "C17": """*As built (round 2).* Added **retry**: the error of creating the stack area at a candidate address is never the
 function's result (the search goes on) unless the very same (start, size) range was probed by a range predicate before
-(seeded change S18: probe with `length`, allocate `length + 8n`).""",
+(seeded change S18: probe with `length`, allocate `length + 8n`). **search** (round 5): the placement of the argument strings and of the stack area returns its error only after at least one probe of the address space, or on conditions over its own parameters (C10.search; seeded change S56). The layout rules (`order`, `slot`, `space`) apply to frames assembled by pushing to a vector; for a frame assembled otherwise they report *undecided* in the evidence instead of a violation.""",
 "C18": """*As built (round 2).* **total** additionally triages every overflow / bounds check on the paths of `trace()` and
 `call_stack()`: a check on machine state (a vector length, a level, an address) is reported unless the path establishes
 it by a dominating comparison or, for `len(X) - k`, by k elements already taken from an iterator over X. **pair** (round 4)
